@@ -2,8 +2,9 @@
 
 Space: the model of gen/xrefmodels.xm3 (see checks/c13.py) -- the body of A.m<k> is every sequence of <= 2 (thorough: <= 3)
 items of the reference alphabet, whose string part is const-string / const-string/jumbo on {"s1", "s2", "LB;" (a value that is
-also a type descriptor of the file), "" (the empty string)} and whose class part is new-instance / const-class on {LB;, LA; (self), Lext/E;, [LB;, [I},
-plus check-cast / instance-of / new-array as type references that are NOT class-usage xrefs.  A.n and D.r (second DEX) load the
+also a type descriptor of the file), "" (the empty string)} and whose class part is const-class on {LB;, LA; (self), Lext/E;} x array dimension {0, 1, 2, 3} and
+{[I, [[I}, new-instance on the same classes x {0, 1, 2} and [I (one 255-dimensional type alone), plus check-cast / instance-of /
+new-array / filled-new-array on 0..2-dimensional types as type references that are NOT class-usage xrefs.  A.n and D.r (second DEX) load the
 same strings and use the same classes, so every StringAnalysis / ClassAnalysis is shared across methods and DEX files.
 Oracle (ref/xref.py): StringAnalysis(value).get_xref_from(with_offset=True) == exactly the const-strings of that value;
 ClassAnalysis(T).get_xref_new_instance / get_xref_const_class and the method-side lists == exactly the new-instance /
@@ -14,11 +15,12 @@ from checks import xref_common as C
 
 PROPERTY = "C15"
 LEVEL = "exploration"
-RULE = ("every body of <= 2 (thorough <= 3) items over a 149-item reference alphabet + 150 extended single items, one generated "
+RULE = ("every body of <= 2 (thorough <= 3) items over a 169-item reference alphabet + 160 extended single items, one generated "
         "program per body; non-trivial = the body contains a const-string, new-instance or const-class; distinct by construction "
         "(the sequence is the enumeration index)")
-ASSUMPTIONS = ["operands that are the method's own class or an array of a class are 'not another class': their entries may be present "
-               "(under the element class, at the right method and offset) or absent; nothing else may appear",
+ASSUMPTIONS = ["an array operand ([LB;, [[LB;, ...) is a use of its ELEMENT class whatever the number of dimensions and must be listed there "
+               "(androguard's documented behaviour for one dimension, demanded uniformly for every dimension)",
+               "operands whose (element) class is the method's own class are 'not another class': listed or not, but uniformly",
                "references of a class to itself must be treated uniformly within one analysis (all listed or none): a mix means the "
                "result depends on processing order (key class-use:other-then-self)",
                "arrays of primitives have no class: nothing may appear anywhere for them",
@@ -33,7 +35,7 @@ MANIFEST = {
             "accesses and other type-referencing instructions, is written by an independent DEX writer and analysed; every "
             "StringAnalysis, ClassAnalysis and MethodAnalysis list is compared for equality (method identity and byte offset) "
             "with the relation derived from the model.  Complete for the stated bound.",
-    "note": "Trusted: gen/dexgen.py, gen/dalvik.py, ref/xref.py. Self and array operands are accepted present or absent.",
+    "note": "Trusted: gen/dexgen.py, gen/dalvik.py, ref/xref.py. Self operands are accepted listed or not listed, but uniformly.",
 }
 
 
@@ -75,7 +77,8 @@ def finalize(ctx, acc):
     x = acc.extra
     need = ["string:const-string", "string:const-string/jumbo", "string-value:''", "class-use of a class that also references itself"]
     need += ["%s:%s" % (op, tk) for op in ("new-instance", "const-class")
-             for tk in ("internal", "internal:cross-dex", "self", "external", "array-of-class", "array-of-primitive")
+             for tk in ("internal", "internal:cross-dex", "self", "external", "array-of-primitive", "array-dim1:internal",
+                        "array-dim2:internal", "array-dim2:external", "array-dim2:self", "array-dim1:self")
              if not (op == "const-class" and tk == "internal:cross-dex")]
     missing = [k for k in need if not x.get(k)]
     if missing:
